@@ -503,6 +503,67 @@ def reopen_equal(mtok, itok, fresh):
     return exp == got
 
 
+# ---- the dictionaries behind clones as a list (Attr/AttrChain.v, engine attr-chain) ----
+def chain_case(rng):
+    """clone (XLAT or sharing) from any live level, create attributes through any level (VMCOREINFO
+    lines, file.set.N), shrink file.set, free any context (the original too) in any order"""
+    ops, live, n = [], [0], 1
+    for _ in range(rng.randint(3, 16)):
+        r = rng.random()
+        if r < 0.32 and n < 10:
+            ops.append("%s:%d" % ("X" if rng.random() < 0.7 else "N", rng.choice(live)))
+            live.append(n)
+            n += 1
+        elif r < 0.55:
+            ops.append("V:%d:%d:%d" % (rng.choice(live), rng.randint(0, 40), rng.randint(1, 12)))
+        elif r < 0.75:
+            ops.append("S:%d:%d" % (rng.choice(live), rng.randint(1, 4)))
+        elif len(live) > 1:
+            c = rng.choice(live)
+            live.remove(c)
+            ops.append("F:%d" % c)
+    return ["CHAIN"] + ops
+
+
+def chain_run(run, exe, cases):
+    lines = [" ".join(c) for c in cases]
+    impl, crashes = core.run_impl_lines(exe, run.work, lines, timeout=600,
+                                        env={"ASAN_OPTIONS": "detect_leaks=1:abort_on_error=0:exitcode=97"})
+    jl = [l + " || " + (impl[i] if i < len(impl) else "") for i, l in enumerate(lines)]
+    verd = core.run_model("attr-chain", run.casefile("attr-chain.txt", jl))
+    return impl, crashes, verd
+
+
+def chain_compare(run, exe, cases):
+    impl, crashes, verd = chain_run(run, exe, cases)
+    bad = []
+    for i, c in enumerate(cases):
+        out = impl[i] if i < len(impl) else ""
+        run.note_case(" ".join(c), any(o.startswith("F:") for o in c))
+        run.count("chain-cases")
+        run.count("chain-dicts-%d" % (1 + sum(o.startswith("X:") for o in c)))
+        if i in crashes or out.startswith(("CRASH", "NOT-RUN")) or (verd[i] if i < len(verd) else "?") != "ok":
+            bad.append(i)
+    for i in bad[:3]:
+        def fails(cand):
+            im, cr, vd = chain_run(run, exe, [["CHAIN"] + cand])
+            return bool(cr) or not im or im[0].startswith(("CRASH", "NOT-RUN")) or not vd or vd[0] != "ok"
+        small = ["CHAIN"] + core.shrink_list(cases[i][1:], fails, max_tests=80, budget_s=60)
+        im, cr, vd = chain_run(run, exe, [small])
+        if cr or not im or im[0].startswith(("CRASH", "NOT-RUN")):
+            err = (list(cr.values())[0][1] if cr else "")
+            what = "the library crashes on a chain of cloned dictionaries: %s" % " ".join(small)
+            sig = "attr chain crash " + " ".join(core.re.findall(r"ERROR: \w+: ([\w-]+)", err)[:1])
+            run.violation("impl", what, {"case": " ".join(small), "stderr": err[-2500:]}, found_input=True, signature=sig)
+        elif vd and vd[0] != "ok":
+            run.violation("spec", "dictionaries behind clones: %s (history: %s)" % (vd[0], " ".join(small)),
+                          {"case": " ".join(small), "impl": im[0][:2000]}, found_input=True,
+                          signature="attr chain " + core.re.sub(r"[0-9a-f.]{6,}|\d+", "#", vd[0])[:160])
+        else:
+            run.violation("tie", "a chain history fails only as part of a batch: %s" % " ".join(cases[i]),
+                          {"case": " ".join(cases[i])}, found_input=True, signature="attr chain flaky")
+
+
 def check(run):
     run.trusted += ["the initial dictionary of every history is read (white-box) from a context prepared by "
                     "harness/attr_drv.c setup(); the model is responsible for every transition after that",
@@ -566,8 +627,15 @@ def check(run):
     if run.replay_path:
         rp = core.json.load(open(run.replay_path))
         ops = rp["replay"]["case"].split()
-        compare(run, ctx, [ops])
+        if ops and ops[0] == "CHAIN":
+            chain_compare(run, exe, [ops])
+        else:
+            compare(run, ctx, [ops])
         return
+    # the list-of-dictionaries model against the real hash tables and fallback pointers
+    nchain_cases = 400 if quick else 8000
+    chain_compare(run, exe, [chain_case(run.rng) for _ in range(nchain_cases)])
+    run.cov["engines"]["attr-chain"] = {"generated": nchain_cases}
     gen = Gen(run.rng, tree, len(usable))
     genf = Gen(run.rng, trees["F"], len(usable), "F")
     nfresh = ncases // 3
